@@ -39,49 +39,55 @@ def check(ctx):
     ctx.touch(q)
     it = interp(ctx, opaque={FP + "FlowProperties.__init__"}, opaque_methods={"bluebonnet.flow.reservoir:simulate", "bluebonnet.flow.reservoir:recovery_factor"})
     paths = returns(it.run_function(q))
-    if len(paths) != 1:
-        raise AnalysisError(f"{q}: expected one path, found {len(paths)}")
-    p = paths[0]
-    # constructions and method calls made by the objective, directly or through private helpers it calls (inlined)
-    evs = [e for e in p.events if e.kind == "construct" or (e.kind in ("int_call", "method_call") and e.data.get("recv") is not None)]
-    cons_fp = [e for e in evs if e.kind == "construct" and e.data["cls"] == FP + "FlowProperties"]
-    cons_r = [e for e in evs if e.kind == "construct" and e.data["cls"] == SPR]
-    sims = [e for e in evs if e.kind == "int_call" and e.data["callee"].startswith("bluebonnet.flow.reservoir.") and e.data["callee"].endswith(".simulate")]
-    recs = [e for e in evs if e.kind == "int_call" and e.data["callee"].startswith("bluebonnet.flow.reservoir.") and e.data["callee"].endswith(".recovery_factor")]
-    ok_shape = len(cons_fp) == 1 and len(cons_r) == 1 and len(sims) == 1 and len(recs) == 1
-    ctx.check(
-        ok_shape, "C18-a", q + ":forward model", f.where(),
-        "the objective builds one FlowProperties and one SinglePhaseReservoir of the library (resolved through bluebonnet.flow) and calls simulate and recovery_factor once each",
-        signature="forward model shape", constructs=[e.data["cls"] for e in evs if e.kind == "construct"], calls=[e.data["callee"] for e in evs if e.kind == "int_call"],
-    )
-    if ok_shape:
-        order = [evs.index(x) for x in (cons_fp[0], cons_r[0], sims[0], recs[0])]
-        inst = cons_r[0].data["inst"]
-        same = sims[0].data["recv"] is inst and recs[0].data["recv"] is inst
-        others = [e for e in evs if e.kind == "int_call" and e.data.get("recv") is inst and e not in (sims[0], recs[0])]
-        ctx.check(order == sorted(order) and same and not others, "C18-a", q + ":typestate order", f.where(), "construct -> simulate -> recovery_factor on the same reservoir object, nothing in between", signature="call order")
-        a = cons_fp[0].data["args"]
+    if not paths:
+        raise AnalysisError(f"{q}: no returning path")
+    # every partition of the objective (an environment switch, a version gate) has to be the documented forward model
+    def _tags(ps):
+        if len(ps) == 1:
+            return [("", ps[0])]
+        return [(" [" + ", ".join(("" if c else "not ") + d[:60] for _k, c, d in p_.decisions) + "]", p_) for p_ in ps]
+
+    for otag, p in _tags(paths):
+        # constructions and method calls made by the objective, directly or through private helpers it calls (inlined)
+        evs = [e for e in p.events if e.kind == "construct" or (e.kind in ("int_call", "method_call") and e.data.get("recv") is not None)]
+        cons_fp = [e for e in evs if e.kind == "construct" and e.data["cls"] == FP + "FlowProperties"]
+        cons_r = [e for e in evs if e.kind == "construct" and e.data["cls"] == SPR]
+        sims = [e for e in evs if e.kind == "int_call" and e.data["callee"].startswith("bluebonnet.flow.reservoir.") and e.data["callee"].endswith(".simulate")]
+        recs = [e for e in evs if e.kind == "int_call" and e.data["callee"].startswith("bluebonnet.flow.reservoir.") and e.data["callee"].endswith(".recovery_factor")]
+        ok_shape = len(cons_fp) == 1 and len(cons_r) == 1 and len(sims) == 1 and len(recs) == 1
         ctx.check(
-            it.to_nf(a["pvt_props"]) == nf.sym("pvt_table") and it.to_nf(a["p_i"]) == pval("p_initial"), "C18-a", q + ":FlowProperties arguments", f"{f.file}:{cons_fp[0].line}",
-            "the fluid wrapper is built from the caller's PVT table at the trial initial pressure", signature="FlowProperties args", got={k: nf.show(it.to_nf(v), 80) for k, v in a.items()},
+            ok_shape, "C18-a", q + ":forward model" + otag, f.where(),
+            "the objective builds one FlowProperties and one SinglePhaseReservoir of the library (resolved through bluebonnet.flow) and calls simulate and recovery_factor once each",
+            signature="forward model shape", constructs=[e.data["cls"] for e in evs if e.kind == "construct"], calls=[e.data["callee"] for e in evs if e.kind == "int_call"],
         )
-        a = cons_r[0].data["args"]
-        nx = a.get("nx")
-        okr = isinstance(nx, Num) and nf.as_int(nx.nf) is not None and nf.as_int(nx.nf) >= 3 and it.to_nf(a.get("pressure_initial")) == pval("p_initial") and a.get("fluid") is cons_fp[0].data["inst"]
-        ctx.check(okr, "C18-a", q + ":reservoir arguments", f"{f.file}:{cons_r[0].line}", "the reservoir has a fixed node count, the trial initial pressure and the fluid wrapper just built", signature="reservoir args", got={k: str(v)[:60] for k, v in a.items()})
-        a = sims[0].data["args"]
-        oks = it.to_nf(a["time"]) == nf.div(nf.sym("days"), pval("tau")) and it.to_nf(a["pressure_fracface"]) == nf.sym("pressure_fracface")
-        ctx.check(oks, "C18-a", q + ":simulate arguments", f"{f.file}:{sims[0].line}", "the simulation runs over days / tau with the caller's frac-face pressure history", signature="simulate args", got={k: nf.show(it.to_nf(v), 80) for k, v in a.items()})
-        a = recs[0].data["args"]
-        okd = str(a.get("density")) == "Bool(False)" and type(a.get("time")).__name__ == "NoneV"
-        ctx.check(okd, "C18-a", q + ":recovery arguments", f"{f.file}:{recs[0].line}", "recovery is the default flux-based recovery factor of the run just simulated", signature="recovery args", got={k: str(v)[:40] for k, v in a.items()})
-        rf = nf.fn(recs[0].data["callee"], nf.sym(inst.name), nf.sym("None"), {})
-        val = it.to_nf(p.value)
-        rfa = [x for x in nf.atoms(val) if x[0] == "fn" and x[1] == recs[0].data["callee"]]
-        if len(set(rfa)) == 1:
-            ctx.identity("C18-a", q + ":objective", f.where(), "objective == params['M'] * recovery_factor - production", val, nf.sub(nf.mul(pval("M"), nf.atom_poly(rfa[0])), nf.sym("production")))
-        else:
-            ctx.bad("C18-a", q + ":objective", f.where(), "objective == params['M'] * recovery_factor - production", signature="objective", value=nf.show(val, 200))
+        if ok_shape:
+            order = [evs.index(x) for x in (cons_fp[0], cons_r[0], sims[0], recs[0])]
+            inst = cons_r[0].data["inst"]
+            same = sims[0].data["recv"] is inst and recs[0].data["recv"] is inst
+            others = [e for e in evs if e.kind == "int_call" and e.data.get("recv") is inst and e not in (sims[0], recs[0])]
+            ctx.check(order == sorted(order) and same and not others, "C18-a", q + ":typestate order" + otag, f.where(), "construct -> simulate -> recovery_factor on the same reservoir object, nothing in between", signature="call order")
+            a = cons_fp[0].data["args"]
+            ctx.check(
+                it.to_nf(a["pvt_props"]) == nf.sym("pvt_table") and it.to_nf(a["p_i"]) == pval("p_initial"), "C18-a", q + ":FlowProperties arguments" + otag, f"{f.file}:{cons_fp[0].line}",
+                "the fluid wrapper is built from the caller's PVT table at the trial initial pressure", signature="FlowProperties args", got={k: nf.show(it.to_nf(v), 80) for k, v in a.items()},
+            )
+            a = cons_r[0].data["args"]
+            nx = a.get("nx")
+            okr = isinstance(nx, Num) and nf.as_int(nx.nf) is not None and nf.as_int(nx.nf) == 80 and it.to_nf(a.get("pressure_initial")) == pval("p_initial") and a.get("fluid") is cons_fp[0].data["inst"]
+            ctx.check(okr, "C18-a", q + ":reservoir arguments" + otag, f"{f.file}:{cons_r[0].line}", "the reservoir has the documented 80 nodes (whatever the environment says), the trial initial pressure and the fluid wrapper just built", signature="reservoir args", got={k: str(v)[:60] for k, v in a.items()})
+            a = sims[0].data["args"]
+            oks = it.to_nf(a["time"]) == nf.div(nf.sym("days"), pval("tau")) and it.to_nf(a["pressure_fracface"]) == nf.sym("pressure_fracface")
+            ctx.check(oks, "C18-a", q + ":simulate arguments" + otag, f"{f.file}:{sims[0].line}", "the simulation runs over days / tau with the caller's frac-face pressure history", signature="simulate args", got={k: nf.show(it.to_nf(v), 80) for k, v in a.items()})
+            a = recs[0].data["args"]
+            okd = str(a.get("density")) == "Bool(False)" and type(a.get("time")).__name__ == "NoneV"
+            ctx.check(okd, "C18-a", q + ":recovery arguments" + otag, f"{f.file}:{recs[0].line}", "recovery is the default flux-based recovery factor of the run just simulated", signature="recovery args", got={k: str(v)[:40] for k, v in a.items()})
+            rf = nf.fn(recs[0].data["callee"], nf.sym(inst.name), nf.sym("None"), {})
+            val = it.to_nf(p.value)
+            rfa = [x for x in nf.atoms(val) if x[0] == "fn" and x[1] == recs[0].data["callee"]]
+            if len(set(rfa)) == 1:
+                ctx.identity("C18-a", q + ":objective" + otag, f.where(), "objective == params['M'] * recovery_factor - production", val, nf.sub(nf.mul(pval("M"), nf.atom_poly(rfa[0])), nf.sym("production")))
+            else:
+                ctx.bad("C18-a", q + ":objective" + otag, f.where(), "objective == params['M'] * recovery_factor - production", signature="objective", value=nf.show(val, 200))
     # ---- C18-b keys
     reads = {e.data["key"] for e in p.events if e.kind == "read_sub" and it.to_nf(e.data["base"]) == nf.sym("params")}
     ctx.check(reads == KEYS, "C18-b", q + ":parameter names read", f.where(), "the objective reads exactly the parameters tau, M and p_initial", signature="keys read " + ",".join(sorted(reads)))
